@@ -110,14 +110,28 @@ impl<T: Qcow2IoOps> Qcow2Dev<T> {
                     self.flush_refcount().await?;
                     self.flush_mapping(&l1_table).await?;
 
-                    let (new_off, cnt) = match self.allocate_clusters(new_clusters).await? {
-                        Some(res) => res,
-                        None => return Err("nothing allocated for new l1 table".into()),
+                    // The table needs one contiguous run, and the allocator
+                    // may hand out a shorter one (what is left in front of
+                    // the next refcount block, say). Hold short runs until a
+                    // long enough one turns up, so that the allocator moves
+                    // on instead of offering the same run again.
+                    let mut held = Vec::new();
+                    let found = loop {
+                        match self.allocate_clusters(new_clusters).await {
+                            Ok(Some((off, cnt))) if cnt >= new_clusters => break Ok((off, cnt)),
+                            Ok(Some(run)) if held.len() < 64 => held.push(run),
+                            Ok(Some(run)) => {
+                                held.push(run);
+                                break Err("no contiguous clusters for new l1 table".into());
+                            }
+                            Ok(None) => break Err("nothing allocated for new l1 table".into()),
+                            Err(err) => break Err(err),
+                        }
                     };
-                    if cnt < new_clusters {
-                        self.free_clusters(new_off, cnt).await?;
-                        return Err("no contiguous clusters for new l1 table".into());
+                    for (off, cnt) in held {
+                        self.free_clusters(off, cnt).await?;
                     }
+                    let (new_off, cnt) = found?;
 
                     let res = async {
                         // the new clusters' refcounts reach the disk before
